@@ -11,7 +11,8 @@ EXTENDS Naturals, Sequences, FiniteSets, TLC, Json
 
 Items == {"SVID", "UNITS", "RPTID", "ALCD"}
 Unknown == "NOSUCHITEM"
-Names == {"-", "NAMED", "DATA"}      \* "DATA" is also the default key: an explicit name equal to a default must still be honoured
+Names == {"-", "NAMED", "DATA", "nAmed"}      \* "DATA" is also the default key: an explicit name equal to a default must still be honoured;
+                                              \* the name after the L tag is the key as written (mixed case: no folding)
 
 Item(n) == [k |-> "item", name |-> n, kids |-> <<>>]
 List(n, kids) == [k |-> "list", name |-> n, kids |-> kids]
